@@ -8,76 +8,118 @@ From C16 Require Import PModel PProofs PAbs PSimS PSimE.
 Lemma p_get_overflow c x : length c <= x -> p_get c x = p_dflt.
 Proof. intros H. unfold p_get. apply nth_overflow. exact H. Qed.
 
-Lemma p_cfg_ok_at c x : p_cfg_ok c = true -> p_dcfg_ok c x = true.
-Proof.
-  intros H. destruct (Nat.lt_ge_cases x (length c)) as [L|L].
-  - unfold p_cfg_ok in H. rewrite forallb_forall in H. apply H. apply in_seq. lia.
-  - unfold p_dcfg_ok. rewrite (p_get_overflow c x L). simpl. rewrite orb_true_r. reflexivity.
-Qed.
-
 Lemma p_proj_rev d l : p_proj d (rev l) = rev (p_proj d l).
 Proof.
   unfold p_proj. induction l; simpl; auto. rewrite filter_app, IHl. simpl.
   destruct (le_d a =? d); simpl; auto. rewrite app_nil_r. reflexivity.
 Qed.
 
-Theorem p_backends_agree c ops d :
-  p_cfg_ok c = true -> p_ops_ok c ops = true -> d < length c ->
-  p_proj d (p_log (p_run true c ops)) = p_proj d (p_log (p_run false c ops)).
+(* ---------- per-descriptor form: only actions aimed AT d by other descriptors are excluded ---------- *)
+Section PerD.
+Variable c : p_cfg.
+Variable d : nat.
+Hypothesis GD : p_d_ok c d = true.
+Hypothesis L : d < length c.
+
+Lemma p_d_ok_parts :
+  (forall x a, x <> d -> In a (pc_rs (p_get c x) ++ pc_ws (p_get c x) ++ pc_cs (p_get c x)) -> p_act_target a <> d) /\
+  pc_doc (p_get c d) = false /\
+  (forall a, In a (pc_rs (p_get c d) ++ pc_ws (p_get c d) ++ pc_cs (p_get c d)) ->
+     p_act_target a = d -> p_is_addw a = true -> p_is_sock c d = true) /\
+  p_script_ok (l_own d (pc_rs (p_get c d))) = true /\ p_script_ok (l_own d (pc_cs (p_get c d))) = true.
 Proof.
-  intros GC GO L.
-  assert (G1 : forall x a, In a (pc_rs (p_get c x) ++ pc_ws (p_get c x) ++ pc_cs (p_get c x)) -> p_act_target a = x).
-  { intros x a H. pose proof (p_cfg_ok_at c x GC) as K. unfold p_dcfg_ok in K.
-    repeat (apply andb_true_iff in K; destruct K as [K ?]).
-    rewrite forallb_forall in K. apply Nat.eqb_eq. apply (K a H). }
-  assert (G2 : forall x, pc_doc (p_get c x) = false).
-  { intros x. pose proof (p_cfg_ok_at c x GC) as K. unfold p_dcfg_ok in K.
-    repeat (apply andb_true_iff in K; destruct K as [K ?]).
-    apply negb_true_iff. assumption. }
-  pose proof (p_cfg_ok_at c d GC) as K. unfold p_dcfg_ok in K.
+  pose proof GD as K. unfold p_d_ok in K.
   apply andb_true_iff in K. destruct K as [K G4c].
   apply andb_true_iff in K. destruct K as [K G4r].
   apply andb_true_iff in K. destruct K as [K G3b].
-  assert (G3 : forall a, In a (pc_rs (p_get c d) ++ pc_ws (p_get c d) ++ pc_cs (p_get c d)) ->
-                 p_is_addw a = true -> p_is_sock c d = true).
-  { intros a H W. apply orb_true_iff in G3b. destruct G3b as [S|N]; auto.
-    apply negb_true_iff in N. assert (existsb p_is_addw (pc_rs (p_get c d) ++ pc_ws (p_get c d) ++ pc_cs (p_get c d)) = true)
-      by (apply existsb_exists; exists a; auto). congruence. }
-  assert (GO' : forall o x, In o ops -> o = POAddW x -> x = d -> p_is_sock c d = true).
-  { intros o x H -> ->. unfold p_ops_ok in GO. rewrite forallb_forall in GO. apply (GO _ H). }
-  pose proof (p_re_run c d G1 G2 G3 G4r G4c ops L GO' (p_init true c) (l_init c d) 0 eq_refl
-                (p_inv_init c true) (p_re_init c d)) as RE.
-  pose proof (p_rs_run c d G1 G2 ops L (p_init false c) (l_init c d) 0 eq_refl (p_rs_init c d)) as RS.
-  unfold p_log, p_run. rewrite !p_proj_rev. f_equal.
-  rewrite (re_log _ _ _ _ RE), (rs_log _ _ _ _ RS). reflexivity.
+  apply andb_true_iff in K. destruct K as [G1b G2b].
+  split; [|split; [|split; [|split]]].
+  - intros x a N H. destruct (Nat.lt_ge_cases x (length c)) as [Lx|Lx].
+    + rewrite forallb_forall in G1b. assert (Hx : In x (seq 0 (length c))) by (apply in_seq; lia).
+      specialize (G1b x Hx). apply orb_true_iff in G1b. destruct G1b as [E|F].
+      * apply Nat.eqb_eq in E. congruence.
+      * rewrite forallb_forall in F. specialize (F a H). apply negb_true_iff in F. apply Nat.eqb_neq in F. exact F.
+    + rewrite (p_get_overflow c x Lx) in H. simpl in H. destruct H.
+  - apply negb_true_iff. exact G2b.
+  - intros a H T W. apply orb_true_iff in G3b. destruct G3b as [S|N]; auto.
+    apply negb_true_iff in N.
+    assert (X : existsb p_is_addw (filter (fun a0 => p_act_target a0 =? d)
+                 (pc_rs (p_get c d) ++ pc_ws (p_get c d) ++ pc_cs (p_get c d))) = true).
+    { apply existsb_exists. exists a. split; auto. apply filter_In. split; auto. apply Nat.eqb_eq; auto. }
+    congruence.
+  - exact G4r.
+  - exact G4c.
 Qed.
+
+Theorem p_refine_d ops be : p_ops_ok_d c d ops = true ->
+  p_proj d (p_log (p_run be c ops)) = rev (a_log (l_run c d 0 (l_init c d) ops)).
+Proof.
+  intros GO. destruct p_d_ok_parts as (G1 & G2d & G3 & G4r & G4c).
+  assert (GO' : forall o x, In o ops -> o = POAddW x -> x = d -> p_is_sock c d = true).
+  { intros o x H -> ->. unfold p_ops_ok_d in GO. rewrite forallb_forall in GO. specialize (GO _ H). simpl in GO.
+    rewrite Nat.eqb_refl in GO. exact GO. }
+  unfold p_log, p_run. rewrite p_proj_rev. f_equal. destruct be.
+  - apply (re_log _ _ _ _ (p_re_run c d G1 G2d G3 G4r G4c ops L GO' (p_init true c) (l_init c d) 0 eq_refl
+                (p_inv_init c true) (p_re_init c d))).
+  - apply (rs_log _ _ _ _ (p_rs_run c d G1 G2d ops L (p_init false c) (l_init c d) 0 eq_refl (p_rs_init c d))).
+Qed.
+
+Theorem p_agree_d ops : p_ops_ok_d c d ops = true ->
+  p_proj d (p_log (p_run true c ops)) = p_proj d (p_log (p_run false c ops)).
+Proof. intros GO. rewrite (p_refine_d ops true GO), (p_refine_d ops false GO). reflexivity. Qed.
+End PerD.
+
+(* ---------- the global guard of round 3 implies the per-descriptor one ---------- *)
+Lemma p_cfg_ok_at c x : p_cfg_ok c = true -> p_dcfg_ok c x = true.
+Proof.
+  intros H. destruct (Nat.lt_ge_cases x (length c)) as [L|L].
+  - unfold p_cfg_ok in H. rewrite forallb_forall in H. apply H. apply in_seq. lia.
+  - unfold p_dcfg_ok. rewrite (p_get_overflow c x L). simpl. rewrite orb_true_r. reflexivity.
+Qed.
+Lemma existsb_filter_le {A} (f g : A -> bool) l : existsb f (filter g l) = true -> existsb f l = true.
+Proof.
+  rewrite !existsb_exists. intros (x & H & F). apply filter_In in H. exists x. tauto.
+Qed.
+Lemma p_script_ok_filter g l : p_script_ok l = true -> p_script_ok (filter g l) = true.
+Proof.
+  unfold p_script_ok. rewrite !negb_true_iff. intros H.
+  destruct (existsb p_is_addw (filter g l)) eqn:A; auto.
+  destruct (existsb p_is_remw (filter g l)) eqn:B; auto.
+  destruct (existsb p_is_remr (filter g l)) eqn:C; auto.
+  rewrite (existsb_filter_le _ _ _ A), (existsb_filter_le _ _ _ B), (existsb_filter_le _ _ _ C) in H. discriminate.
+Qed.
+Lemma p_cfg_ok_d c d : p_cfg_ok c = true -> p_d_ok c d = true.
+Proof.
+  intros GC. pose proof (p_cfg_ok_at c d GC) as K. unfold p_dcfg_ok in K.
+  apply andb_true_iff in K. destruct K as [K G4c].
+  apply andb_true_iff in K. destruct K as [K G4r].
+  apply andb_true_iff in K. destruct K as [K G3b].
+  apply andb_true_iff in K. destruct K as [G1b G2b].
+  unfold p_d_ok. rewrite G2b. rewrite (p_script_ok_filter _ _ G4r), (p_script_ok_filter _ _ G4c).
+  assert (G3' : p_is_sock c d || negb (existsb p_is_addw (filter (fun a => p_act_target a =? d)
+                  (pc_rs (p_get c d) ++ pc_ws (p_get c d) ++ pc_cs (p_get c d)))) = true).
+  { apply orb_true_iff in G3b. destruct G3b as [->|N]; auto. rewrite orb_true_iff. right.
+    apply negb_true_iff. apply negb_true_iff in N.
+    destruct (existsb p_is_addw (filter _ _)) eqn:X; auto. rewrite (existsb_filter_le _ _ _ X) in N. discriminate. }
+  rewrite G3'. rewrite !andb_true_r. apply forallb_forall. intros x Hx.
+  destruct (x =? d) eqn:E; auto. simpl. apply forallb_forall. intros a Ha.
+  pose proof (p_cfg_ok_at c x GC) as Kx. unfold p_dcfg_ok in Kx.
+  repeat (apply andb_true_iff in Kx; destruct Kx as [Kx ?]).
+  rewrite forallb_forall in Kx. specialize (Kx a Ha). unfold p_act_self in Kx. apply Nat.eqb_eq in Kx.
+  apply negb_true_iff. rewrite Kx. exact E.
+Qed.
+Lemma p_ops_ok_d_of c d ops : p_ops_ok c ops = true -> p_ops_ok_d c d ops = true.
+Proof.
+  unfold p_ops_ok, p_ops_ok_d. rewrite !forallb_forall. intros H o Ho. specialize (H o Ho).
+  destruct o; auto. simpl in *. destruct (d0 =? d) eqn:E; auto. apply Nat.eqb_eq in E. subst. exact H.
+Qed.
+
+Theorem p_backends_agree c ops d :
+  p_cfg_ok c = true -> p_ops_ok c ops = true -> d < length c ->
+  p_proj d (p_log (p_run true c ops)) = p_proj d (p_log (p_run false c ops)).
+Proof. intros GC GO L. apply p_agree_d; auto. apply p_cfg_ok_d; auto. apply p_ops_ok_d_of; auto. Qed.
 
 Theorem p_backends_refine c ops d be :
   p_cfg_ok c = true -> p_ops_ok c ops = true -> d < length c ->
   p_proj d (p_log (p_run be c ops)) = rev (a_log (l_run c d 0 (l_init c d) ops)).
-Proof.
-  intros GC GO L.
-  assert (G1 : forall x a, In a (pc_rs (p_get c x) ++ pc_ws (p_get c x) ++ pc_cs (p_get c x)) -> p_act_target a = x).
-  { intros x a H. pose proof (p_cfg_ok_at c x GC) as K. unfold p_dcfg_ok in K.
-    repeat (apply andb_true_iff in K; destruct K as [K ?]).
-    rewrite forallb_forall in K. apply Nat.eqb_eq. apply (K a H). }
-  assert (G2 : forall x, pc_doc (p_get c x) = false).
-  { intros x. pose proof (p_cfg_ok_at c x GC) as K. unfold p_dcfg_ok in K.
-    repeat (apply andb_true_iff in K; destruct K as [K ?]).
-    apply negb_true_iff. assumption. }
-  pose proof (p_cfg_ok_at c d GC) as K. unfold p_dcfg_ok in K.
-  apply andb_true_iff in K. destruct K as [K G4c].
-  apply andb_true_iff in K. destruct K as [K G4r].
-  apply andb_true_iff in K. destruct K as [K G3b].
-  assert (G3 : forall a, In a (pc_rs (p_get c d) ++ pc_ws (p_get c d) ++ pc_cs (p_get c d)) ->
-                 p_is_addw a = true -> p_is_sock c d = true).
-  { intros a H W. apply orb_true_iff in G3b. destruct G3b as [S|N]; auto.
-    apply negb_true_iff in N. assert (existsb p_is_addw (pc_rs (p_get c d) ++ pc_ws (p_get c d) ++ pc_cs (p_get c d)) = true)
-      by (apply existsb_exists; exists a; auto). congruence. }
-  assert (GO' : forall o x, In o ops -> o = POAddW x -> x = d -> p_is_sock c d = true).
-  { intros o x H -> ->. unfold p_ops_ok in GO. rewrite forallb_forall in GO. apply (GO _ H). }
-  unfold p_log, p_run. rewrite p_proj_rev. f_equal. destruct be.
-  - apply (re_log _ _ _ _ (p_re_run c d G1 G2 G3 G4r G4c ops L GO' (p_init true c) (l_init c d) 0 eq_refl
-                (p_inv_init c true) (p_re_init c d))).
-  - apply (rs_log _ _ _ _ (p_rs_run c d G1 G2 ops L (p_init false c) (l_init c d) 0 eq_refl (p_rs_init c d))).
-Qed.
+Proof. intros GC GO L. apply p_refine_d; auto. apply p_cfg_ok_d; auto. apply p_ops_ok_d_of; auto. Qed.
